@@ -1,5 +1,6 @@
-/- drv_c03 sub-commands: gen / exec / mrun / scope.  Core Lean only. -/
+/- drv_c03 sub-commands: gen / unit / exec / execg / mrun / scope.  Core Lean only. -/
 import ChibiVerif.Model.Stmt
+import ChibiVerif.Spec.ControlSpecG
 import ChibiVerif.Model.Scope
 
 namespace ChibiVerif.Driver.CtlCmd
@@ -149,6 +150,17 @@ def execLine (ws : List String) : String :=
     | _, _ => "bad-op"
   | _ => "bad-op"
 
+/-- the small-step abstract machine for all statements (goto, computed goto, nested case labels):
+    `fuel vals sexpr` → `valid=<constraints hold> gotoval=<has computed goto> <result>` -/
+def execgLine (ws : List String) : String :=
+  match ws with
+  | fuel :: vals :: rest =>
+    match fuel.toNat?, readS rest with
+    | some fuel, some s =>
+      s!"valid={validG s} gotoval={hasGotoVal s} " ++ showRes (execG (oracleOf vals) fuel s ⟨0, []⟩)
+    | _, _ => "bad-op"
+  | _ => "bad-op"
+
 /-- the model's code run on the model's machine: the trace up to the point where control
     reaches the end of the code (after `.L.return.f:`) -/
 def mrunLine (ws : List String) : String :=
@@ -225,10 +237,11 @@ def main (args : List String) : IO UInt32 := do
   | "gen" :: _ => loop h genLine
   | "unit" :: _ => genLoop h 0 1 []
   | "exec" :: _ => loop h execLine
+  | "execg" :: _ => loop h execgLine
   | "mrun" :: _ => loop h mrunLine
   | "scope" :: _ => scopeLoop h ChibiVerif.Scope.Stack.init
   | _ =>
-    IO.eprintln "usage: drv_c03 gen|unit|exec|mrun|scope"
+    IO.eprintln "usage: drv_c03 gen|unit|exec|execg|mrun|scope"
     return 2
 
 end ChibiVerif.Driver.CtlCmd
